@@ -1073,16 +1073,18 @@ func (l *Ledger) GetBaseDB() kvdb.Database {
 	return l.baseDB
 }
 
-func (l *Ledger) removeBlocks(fromBlockid []byte, toBlockid []byte, batch kvdb.Batch) error {
+// removeBlocks removes the blocks of a branch above the height of toBlock, returns the id of the
+// block the branch ends with afterwards (toBlock itself when the branch runs through it)
+func (l *Ledger) removeBlocks(fromBlockid []byte, toBlockid []byte, batch kvdb.Batch) ([]byte, error) {
 	fromBlock, findErr := l.fetchBlock(fromBlockid)
 	if findErr != nil {
 		l.xlog.Warn("failed to find block", "findErr", findErr)
-		return findErr
+		return nil, findErr
 	}
 	toBlock, findErr := l.fetchBlock(toBlockid)
 	if findErr != nil {
 		l.xlog.Warn("failed to find block", "findErr", findErr)
-		return findErr
+		return nil, findErr
 	}
 	for fromBlock.Height > toBlock.Height {
 		l.xlog.Info("remove block", "blockid", utils.F(fromBlock.Blockid), "height", fromBlock.Height)
@@ -1097,10 +1099,10 @@ func (l *Ledger) removeBlocks(fromBlockid []byte, toBlockid []byte, batch kvdb.B
 		fromBlock, findErr = l.fetchBlock(fromBlock.PreHash)
 		if findErr != nil {
 			l.xlog.Warn("failed to find prev block", "findErr", findErr)
-			return nil //ignore orphan block
+			return toBlock.Blockid, nil //ignore orphan block
 		}
 	}
-	return nil
+	return fromBlock.Blockid, nil
 }
 
 // Truncate truncate ledger and set tipblock to utxovmLastID
@@ -1132,14 +1134,16 @@ func (l *Ledger) Truncate(utxovmLastID []byte) error {
 	for _, branchTip := range branchTips {
 		deletedBlockid := []byte(branchTip)
 		// 裁剪到目标高度
-		err = l.removeBlocks(deletedBlockid, block.Blockid, batchWrite)
+		// a side branch is cut down to the target height as well: what is left of it keeps a
+		// branch record of its own, otherwise a later truncation below would not find it
+		newBranchTip, err := l.removeBlocks(deletedBlockid, block.Blockid, batchWrite)
 		if err != nil {
 			l.xlog.Warn("failed to remove garbage blocks", "from", utils.F(l.meta.TipBlockid),
 				"to", utils.F(block.Blockid))
 			return err
 		}
 		// 更新分支高度信息
-		err = l.updateBranchInfo(block.Blockid, deletedBlockid, block.Height, batchWrite)
+		err = l.updateBranchInfo(newBranchTip, deletedBlockid, block.Height, batchWrite)
 		if err != nil {
 			l.xlog.Warn("truncate failed when calling updateBranchInfo", "err", err)
 			return err
